@@ -69,6 +69,27 @@ def run(ck, P):
         ok = bad is None and n > 0 and all(e.block.id not in f.in_loop_blocks() for e in ems)
         ck.ob("C19.2-ONE-PER-TRANSITION", f.site("one " + topic), ok, "%d state-changing path(s) emit exactly as documented" % n if bad is None else bad[0],
               path=rules.fmt_path(f, bad[1]) if bad else None, witness=[("del_event", f.unit, f.name, e.block.id, e.idx) for e in ems])
+    # stop() stays silent on -ENOENT (the module deregistered itself inside on_stop) because the nested mod_deregister -> stop(m, true)
+    # has emitted: that nested stop must therefore run on every deregistering path, whatever state the module is in by then
+    md = P.fn("mod_deregister", MODC)
+    ck.analysed(md)
+    zs = [e for e in md.events() if e.kind == "assign" and S(e.lhs).endswith("->state") and cval(e.rhs) == P.enums.get("M_MOD_ZOMBIE")]
+    ck.need(zs, "mod_deregister no longer stores M_MOD_ZOMBIE")
+    badz = None
+    nz = 0
+    for path in md.paths():
+        evs = list(rules.path_events(md, path))
+        if not any(e in zs for e in evs):
+            continue
+        nz += 1
+        zi = min(i for i, e in enumerate(evs) if e in zs)
+        if not any(e.kind == "call" and e.callee == "stop" and len(e.args) > 1 and cval(e.args[1]) == 1 for e in evs[:zi]):
+            badz = path
+    ck.ob("C19.2-ONE-PER-TRANSITION", md.site("deregistration always stops"), badz is None and nz > 0,
+          "%d deregistering path(s) run stop(m, true) before the module becomes a zombie" % nz if badz is None else
+          "a deregistering path skips stop(m, true) (e.g. for a module that is already STOPPED): when a module deregisters itself inside on_stop() the "
+          "outer stop() stays silent on -ENOENT and nobody emits MOD_STOPPED; sources/subscriptions registered while stopped are never dropped",
+          path=rules.fmt_path(md, badz) if badz else None)
     ls = P.fn("loop_start", CTXC)
     bad = None
     n = 0
